@@ -29,6 +29,12 @@ Skeletons2 == {
   << "a", "if", "b", "if", "c", "else", "d", "else", "2" >>,
   << "?U", "a", "if", "b", "else", "c" >>, << "a", "if", "?U", "b", "else", "c" >>,
   << "a", "if", "b", "else", "?U", "c" >>,
+  \* a conditional followed by a comma: the else branch must end there (argument lists,
+  \* tuples, subscripts, keyword arguments)
+  << "f", "(", "a", "if", "b", "else", "c", ",", "d", ")" >>, << "a", "if", "b", "else", "c", ",", "d" >>,
+  << "(", "a", "if", "b", "else", "c", ",", "d", ")" >>, << "t", "[", "a", "if", "b", "else", "c", ",", "0", "]" >>,
+  << "f", "(", "a", ",", "k1", "=", "b", "if", "c", "else", "d", ",", "k2", "=", "2", ")" >>,
+  << "a", ",", "b", "if", "c", "else", "d" >>, << "a", "if", "b", "else", "c", "?B", "d", ",", "2" >>,
   \* postfix forms against prefix / infix operators
   << "?U", "f", "(", "a", ")" >>, << "?U", "t", "[", "1", "]" >>, << "?U", "o", ".", "p" >>,
   << "a", "?B", "f", "(", "b", ")" >>, << "f", "(", "a", ")", "?B", "b" >>,
